@@ -240,7 +240,7 @@ func (lg *locGen) op() map[string]interface{} {
 				rule["deleteWith"] = []interface{}{lg.ids[r.Intn(len(lg.ids))]}
 			}
 		}
-		if lg.hooks && lg.profile == "dispatch" {
+		if lg.hooks && (lg.profile == "dispatch" || lg.profile == "lifecycle") {
 			if old, have := lg.rules[id]; have && o["id"] == id && r.Intn(4) == 0 {
 				// a replacement that the state's add hook rejects: same `when` (same place in the
 				// pattern index), "veto": true; the stored rule must stay as it was - and findable
@@ -248,6 +248,14 @@ func (lg *locGen) op() map[string]interface{} {
 				// the pattern index - add then undo - which the model's "state unchanged" does not carry and
 				// which decide whether an unsortable event is refused, finding D7)
 				rule = deepCopy(old).(map[string]interface{})
+				if r.Intn(3) == 0 {
+					// ... or a SCHEDULED rule (never indexed, whatever its `when`): the roll-back must go
+					// by the stored rule, which is an event rule and has to be findable again
+					rule["schedule"] = "+1h"
+					if r.Intn(2) == 0 {
+						delete(rule, "when")
+					}
+				}
 				rule["veto"] = true
 			}
 			if o["id"] == id && rule["veto"] != true {
@@ -419,7 +427,7 @@ func genLocCase(r *rand.Rand, prof string) Case {
 	if prof == "cascade" && r.Intn(6) == 0 {
 		lg.ids = append(lg.ids, "?v") // variable-looking id (D14)
 	}
-	lg.hooks = (prof == "dispatch" || prof == "search") && r.Intn(3) == 0
+	lg.hooks = (prof == "dispatch" || prof == "search" || prof == "lifecycle") && r.Intn(3) == 0
 	fuzzHooks := prof == "fuzz" && r.Intn(3) == 0
 	nlocs := 1
 	if prof == "forest" {
@@ -444,7 +452,7 @@ func genLocCase(r *rand.Rand, prof string) Case {
 			l["hooks"] = true
 			l["persistent"] = true
 		}
-		if (prof == "dispatch" || prof == "search") && lg.hooks {
+		if (prof == "dispatch" || prof == "search" || prof == "lifecycle") && lg.hooks {
 			l["hooks"] = true
 			l["persistent"] = true
 		}
@@ -916,6 +924,9 @@ func execLocOp(w *locWorld, o map[string]interface{}) {
 						same = string(a) == string(b)
 					}
 				}
+			}
+			if _, scheduled := rm["schedule"]; scheduled {
+				same = true // a scheduled rule is not indexed: nothing to add and undo
 			}
 			if !same {
 				delete(rm, "veto")
